@@ -27,6 +27,7 @@ Ops
 * `spec <inc> T N`   → `ok <size> <nswitch> <nreinit> | <writes> | <image>` / `error <msg>`
 * `auto <inc> T N`   → `ok <size> | <memory>`: the bytes of the automatic object after the model of `funcinit`
                       (memory 0xa5 before) / `error …`
+* `autoclass <inc> T N` → `yes` / `no`: is the pair in the class of `auto_image_correct`
 * `imgclass <inc> T N` → is the pair in the class of `static_image_correct`: `yes` / `no:<first failing hypothesis>`
 * `class <inc> T N`  → is the pair in the class of `parseinit_refines_ref` (`Props/C07.lean`): `braced` / `elided`
                       (no designators; fully braced, resp. with brace elision), `desig` (with designators), or
@@ -252,6 +253,10 @@ def step (line : String) : String :=
       | .ok st =>
         s!"ok {st.top} | " ++ showImage (CprocVerif.InitAuto.funcinit st.top (List.replicate st.top (.byte 0xa5)) st.il.toList)
       | .error e => showErr e
+    | none => "bad-op"
+  | ["autoclass", inc, t, n] =>
+    match parseTyIni inc t n with
+    | some (inc, ty, ini) => if autoClass ty inc ini then "yes" else "no"
     | none => "bad-op"
   | ["imgclass", inc, t, n] =>
     match parseTyIni inc t n with
